@@ -620,8 +620,39 @@ pub fn irrelevant_decision_below(rng: &mut Rng, k: usize) -> HNode {
     }
 }
 
+/// Player one fans out into k hidden actions; below each sits a chance node of ONE shared chance
+/// infoset and then player two's single (blind) infoset: with k >= the task target every subtree
+/// is its own task, and all of them meet at the same chance infoset and the same opponent infoset.
+pub fn shared_chance_fan(rng: &mut Rng, k: usize) -> HNode {
+    let b = rng.range(2, 3);
+    let deep = rng.chance(0.6);
+    let w = *rng.pick(&[1.0, 3.0]);
+    let mut leaf = |rng: &mut Rng| term((rng.range(0, 16) as f64 - 8.0) / 4.0);
+    // second layer (optional), so that each task is a subtree of some size
+    let mut below_blind = |rng: &mut Rng, a: usize, j: usize| -> HNode {
+        if !deep {
+            return leaf(rng);
+        }
+        let _ = j;
+        // player one moves again (knowing its first move): gives every task a subtree to work on
+        player(0, format!("again{}", a), (0..2).map(|m| (format!("m{}", m), leaf(rng))).collect())
+    };
+    player(
+        0,
+        "fan",
+        (0..k)
+            .map(|a| {
+                let outs = (0..2)
+                    .map(|o| (if o == 0 { 1.0 } else { w }, player(1, "blind", (0..b).map(|j| (format!("b{}", j), below_blind(rng, a, j))).collect())))
+                    .collect();
+                (format!("a{}", a), chance(Some("coin".into()), outs))
+            })
+            .collect(),
+    )
+}
+
 pub fn structured(rng: &mut Rng, which: usize) -> (String, HNode) {
-    match which % 17 {
+    match which % 18 {
         0 => ("matching_pennies".into(), matching_pennies()),
         1 => ("rps".into(), rps(1.0)),
         2 => {
@@ -669,6 +700,10 @@ pub fn structured(rng: &mut Rng, which: usize) -> (String, HNode) {
             let k = rng.range(2, 4);
             (format!("irrelevant_decision_below(k={})", k), irrelevant_decision_below(rng, k))
         }
+        17 => {
+            let k = rng.range(4, 10);
+            (format!("shared_chance_fan(k={})", k), shared_chance_fan(rng, k))
+        }
         _ => ("centipede_deep".into(), centipede(rng.range(100, 300))),
     }
 }
@@ -676,7 +711,7 @@ pub fn structured(rng: &mut Rng, which: usize) -> (String, HNode) {
 /// Workload mix used by most properties: mostly G1, some G2. Returns (description, tree).
 pub fn any_game(rng: &mut Rng, size: usize) -> (String, HNode) {
     if rng.chance(0.2) {
-        let w = rng.below(16); // deep centipede (13) only on request
+        let w = rng.below(17); // deep centipede (13) only on request
         structured(rng, if w >= 13 { w + 1 } else { w })
     } else {
         let par = GenParams::random(rng, size);
